@@ -93,6 +93,14 @@ CLAIMED = {
             "(arity <= 3). Violation only on an observed panic / hang / process death / error escaping try.",
             "Whether a malformed form is an error or a value is not judged; recursion depth bounded; trusts recover.",
             "§8 C04"),
+    "C15": ("Text.ReadWith defines token-level placeholder substitution; GenC15.tla carries an implementation-shaped model "
+            "of the line-oriented preamble (AddPreamble / READWithPreamble as mal.go does them) and TLC evaluates both "
+            "on every (source template, assignment) case, flagging the cases the design loses; the real "
+            "READWithPreamble(AddPreamble(src,m)) and Read_str(src,m) are replayed and compared with the substitution",
+            "Exhaustive over 24 source templates x 5 names x 30 values (3.6k cases; thorough adds all two-name "
+            "assignments, 432k). The set of failing real cases coincided with the model-flagged set when first run.",
+            "Value pool bounded; names over letters/digits/-/_ sampled by 5 representatives.",
+            "§8 C15"),
 }
 
 NOT_YET = "check not built yet in this round (planned in DESIGN.md §8; the specification module exists or is in progress)"
